@@ -46,18 +46,60 @@ def f64(seed=0, dtype="float64"):
 CATS = ["a", "b", "c", "d", "e"]
 
 
-def gen_data(rng, n, n_num, n_cat, task, miss_p):
-    """Explicit cells (column-major).  Every categorical column has >= 2 categories present, every numerical
-    column >= 2 distinct finite values, every column at least one missing cell when miss_p > 0 and n >= 3."""
-    num, cat = [], []
-    for _ in range(n_num):
+NUM_KINDS_MIN_TIED = ["zero_inflated", "binary", "constant"]          # minimum == first quartile (zero-width first bucket)
+NUM_KINDS_OTHER = ["mid_ties", "top_ties", "single_value", "all_missing", "generic"]
+
+
+def gen_num_col(rng, n, kind, miss_p):
+    """One numerical column of a boundary kind (ties at the minimum / in the middle / at the top, two values, a
+    constant, a single non-missing value) or a generic one."""
+    base = round(rng.uniform(-3, 3), 3)
+    hi = round(base + rng.uniform(0.5, 3), 3)
+    if kind == "constant":
+        col = [base] * n
+    elif kind == "binary":
+        k = max(1, n // 4)
+        col = [base] * (n - k) + [hi] * k
+    elif kind == "zero_inflated":
+        k = max(1, min(2, n - 2))
+        col = [0.0] * (n - k) + [round(rng.uniform(0.5, 4), 3) for _ in range(k)]
+    elif kind == "top_ties":
+        k = max(1, n // 3)
+        col = [round(base - rng.uniform(0.5, 3), 3) for _ in range(k)] + [base] * (n - k)
+    elif kind == "mid_ties":
+        col = [round(base - 1.5, 3)] + [base] * (n - 2) + [hi] if n >= 3 else [base, hi][:n]
+    elif kind == "all_missing":
+        return [None] * n
+    elif kind == "single_value":
+        col = [None] * n
+        col[rng.randrange(n)] = base
+        return col
+    else:
         col = [round(rng.uniform(-3, 3), 3) for _ in range(n)]
         if n >= 2 and col[0] == col[1]:
             col[1] = col[0] + 1.0
         for r in range(2, n):
             if rng.chance(miss_p):
                 col[r] = None
-        num.append(col)
+        return col
+    rng.shuffle(col)
+    if kind in ("zero_inflated", "top_ties") and n >= 5 and rng.chance(miss_p):
+        col[rng.randrange(n)] = None
+    return col
+
+
+def gen_data(rng, n, n_num, n_cat, task, miss_p, num_kinds=None):
+    """Explicit cells (column-major).  Every categorical column has >= 2 categories present; numerical column 0 is
+    generic (>= 2 distinct values), column 1 has its minimum tied up to the first quartile (zero-inflated / binary /
+    constant), further columns take the other boundary kinds."""
+    num, cat = [], []
+    if num_kinds is None:
+        num_kinds = []
+        for j in range(n_num):
+            num_kinds.append("generic" if j == 0 else rng.pick(NUM_KINDS_MIN_TIED) if j == 1
+                             else rng.pick(NUM_KINDS_OTHER))
+    for kind in num_kinds[:n_num]:
+        num.append(gen_num_col(rng, n, kind, miss_p))
     for _ in range(n_cat):
         k = rng.randint(2, 4)
         col = [CATS[rng.randrange(k)] for _ in range(n)]
@@ -73,7 +115,7 @@ def gen_data(rng, n, n_num, n_cat, task, miss_p):
         y = [r % 2 for r in range(n)]
     else:
         y = [r % 3 for r in range(n)]
-    return {"n": n, "num": num, "cat": cat, "task": task, "y": y}
+    return {"n": n, "num": num, "cat": cat, "task": task, "y": y, "num_kinds": list(num_kinds[:n_num])}
 
 
 def make_dataset(data):
@@ -230,7 +272,11 @@ def train_steps(model, tf, k, lr=0.05):
             tgt = torch.randn(out.shape)
             loss = ((out - tgt) ** 2).mean()
             loss.backward()
-            opt.step()
+            # generic parameter states, not divergent ones: a near-constant column encodes to ~1e6 and plain SGD
+            # would blow the parameters up to inf within two steps -- clip, and skip a step whose gradient is not finite
+            gn = torch.nn.utils.clip_grad_norm_(model.parameters(), 1.0)
+            if bool(torch.isfinite(gn)):
+                opt.step()
     model.eval()
     return model
 
